@@ -138,6 +138,18 @@ int main(int argc, char **argv) {
     std::string blk; for (int i = 0; i < body; i++) blk += "g := g + " + std::to_string(i % 5 + 1) + "; ";
     extra.push_back({"names", "var g;\nproc " + nm + "(val v) is { " + blk + "g := g + v }\nfunc f" + nm + "(val v) is { " + blk + "return g + v }\nproc main() is { g := 0; " + nm + "(1); g := f" + nm + "(2); " + nm + "(3); 0(g) }\n"});
   }
+  // names related to each other (prefix, suffix, differing in one character or in case, one containing the other, equal to main plus a letter), in both definition orders,
+  // with another name between them or not: whatever table the names are stored in must keep them apart
+  {
+    std::vector<std::pair<std::string, std::string>> rel = {{"show", "shown"}, {"p1", "p10"}, {"p", "pp"}, {"a", "ab"}, {"get", "forget"}, {"ab", "ba"}, {"x1", "x2"}, {"Put", "put"}, {"mai", "main2"}, {"f", "ff"},
+                                                             {"abcdefgh", "abcdefgi"}, {"abcdefghijklmnop", "abcdefghijklmnopq"}, {"q_1", "q_10"}, {"t", "t0"}};
+    for (auto &pr : rel) for (int order = 0; order < 2; order++) for (int between = 0; between < 2; between++) for (int mainFirst = 0; mainFirst < 2; mainFirst++) {
+      std::string A = order ? pr.second : pr.first, B = order ? pr.first : pr.second;
+      std::string mainSrc = "proc main() is { g := 0; " + A + "(1); g := g + f_" + B + "(2); " + B + "(3); " + A + "(4); 0(g) }\n";
+      std::string src = "var g;\n" + std::string(mainFirst ? mainSrc : "") + "proc " + A + "(val v) is g := (g + v) + 1\n" + (between ? "proc zz(val v) is g := g + v\n" : "") + "proc " + B + "(val v) is g := (g + v) + 2\nfunc f_" + B + "(val v) is return v + 3\n" + (mainFirst ? "" : mainSrc);
+      extra.push_back({"related-names", src});
+    }
+  }
   // procedures whose entry lies beyond byte 65536 / 200000 / 262144 (a never-called filler procedure of the needed size is defined first)
   for (int fill : {9000, 17000, 52000, 70000}) {
     std::string blk; blk.reserve(fill * 12); for (int i = 0; i < fill; i++) blk += "g := g + 1; ";
